@@ -84,7 +84,7 @@ theorem push_only_appends (b b' : Body) (items : List Item) (h : pushAll b items
         ⟨y1 ++ y2, by rw [hy2, hy1, List.append_assoc]⟩, by omega⟩
 
 /-- helper: the dirty body only extends the snapshot -/
-theorem pushDirty_extends (j : Junk) : ∀ (items : List Item) (b : Body), Extends b (pushDirty b j items).1 := by
+private theorem pushDirty_extends (j : Junk) : ∀ (items : List Item) (b : Body), Extends b (pushDirty b j items).1 := by
   intro items
   induction items with
   | nil => intro b; exact ⟨rfl, ⟨[], by simp [pushDirty]⟩, ⟨[], by simp [pushDirty]⟩, Nat.le_refl _⟩
@@ -100,7 +100,7 @@ theorem pushDirty_extends (j : Junk) : ∀ (items : List Item) (b : Body), Exten
       exact ⟨by rw [e2, e1], ⟨x1 ++ x2, by rw [hx2, hx1, List.append_assoc]⟩,
         ⟨y1 ++ y2, by rw [hy2, hy1, List.append_assoc]⟩, by omega⟩
 
-theorem pushDirty_ok_iff (j : Junk) : ∀ (items : List Item) (b : Body),
+private theorem pushDirty_ok_iff (j : Junk) : ∀ (items : List Item) (b : Body),
     ((pushDirty b j items).2 = true → pushAll b items = some (pushDirty b j items).1) ∧
     ((pushDirty b j items).2 = false → pushAll b items = none) := by
   intro items
@@ -238,7 +238,7 @@ theorem get_ok_advances (b : Body) (p p' : Parser) (t : Ty) (v : Val) (h : get b
       · cases h
 
 /-- helper: a chain of successful gets -/
-theorem getAll_ok_advances (b : Body) : ∀ (ts : List Ty) (p p' : Parser) (vs : List Val),
+private theorem getAll_ok_advances (b : Body) : ∀ (ts : List Ty) (p p' : Parser) (vs : List Val),
     getAll b p ts = .ok (vs, p') →
     vs.length = ts.length ∧ p'.sigIdx = p.sigIdx + (ts.map (fun t => t.toStr.length)).sum ∧
     p.bufIdx ≤ p'.bufIdx ∧ p'.bufIdx ≤ max p.bufIdx b.buf.length ∧ (ts ≠ [] → p.bufIdx < p'.bufIdx) := by
